@@ -27,7 +27,7 @@ Theorem notification_ack_thm : forall c ax st n,
   acks a = [notification_ack n] /\ answers a = [notification_ack n] /\ raises a = 0.
 Proof.
   intros c ax st n Ht Hp.
-  destruct n as [tag x t i fr to p mro ch hp mt cv ex sk enq]. cbn in Ht. subst tag.
+  destruct n as [tag x t i fr to p mro ch hp mt cv ex sk mo enq]. cbn in Ht. subst tag.
   unfold picture_rejected in Hp. cbv zeta.
   unfold stack_recv, ctl_recv, pair_recv, axsend_recv, axrecv_recv, par_recv, layer_recv, registry_recv.
   flags_cases c; destruct ax; destruct t as [t|]; cbn in *; unf;
@@ -42,7 +42,7 @@ Lemma notification_ack_unrepaired_refuted : exists c st n,
 Proof.
   exists (mkFlags true true true true), [],
     (mkFeat "notification" None (Some "encrypt") (Some "1") (Some "s.whatsapp.net") None
-            (Some "4915@s.whatsapp.net") [] [("count", None)] false None false false false false).
+            (Some "4915@s.whatsapp.net") [] [("count", None)] false None false false false false false).
   repeat split; vm_compute; congruence.
 Qed.
 
@@ -55,7 +55,7 @@ Theorem call_thm : forall c ax st n, f_tag n = "call" ->
                else [SAck (f_id n) "call" None (f_from n) None]).
 Proof.
   intros c ax st n Ht.
-  destruct n as [tag x t i fr to p mro ch hp mt cv ex sk enq]. cbn in Ht. subst tag. cbv zeta.
+  destruct n as [tag x t i fr to p mro ch hp mt cv ex sk mo enq]. cbn in Ht. subst tag. cbv zeta.
   unfold stack_recv, ctl_recv, pair_recv, axsend_recv, axrecv_recv, par_recv, layer_recv, registry_recv.
   flags_cases c; destruct ax; cbn in *; unf; unfold has_child; cbn;
     destruct (existsb (fun c => (fst c =? "offer")%string) ch); cbn; repeat split; reflexivity.
@@ -72,7 +72,7 @@ Theorem ping_thm : forall c ax st n, f_tag n = "iq" -> oeq (f_xmlns n) "urn:xmpp
   answers a = [SPong (f_id n) "s.whatsapp.net" "w:p"] /\ ups a = [] /\ raises a = 0.
 Proof.
   intros c ax st n Ht Hx Hu Hs.
-  destruct n as [tag x t i fr to p mro ch hp mt cv ex sk enq]. cbn in Ht. subst tag. cbv zeta.
+  destruct n as [tag x t i fr to p mro ch hp mt cv ex sk mo enq]. cbn in Ht. subst tag. cbv zeta.
   unfold unregistered in Hu. cbn in Hu, Hx, Hs.
   unfold stack_recv, ctl_recv, pair_recv, axsend_recv, axrecv_recv, par_recv, layer_recv, registry_recv.
   flags_cases c; destruct ax; cbn; rewrite ?Hu; cbn; unf; unfold oeq in Hx; rewrite ?Hx; cbn;
@@ -93,7 +93,7 @@ Definition presentable (n : feat) : bool :=
 
 Theorem unsupported_message_thm : forall c ax st n,
   f_tag n = "message" -> wf_message n = true -> presentable n = false ->
-  f_skdm n = false ->                      (* domain: no key distribution on board, see the refuted lemma *)
+  skdm_only n = false ->                   (* not the pkmsg part of a group message: that one gets nothing, below *)
   (match f_mediatype n with Some _ => fl_media c | None => true end) = true ->
   let a := stack_recv repaired c ax st n in
   receipts a = [SReceipt (f_id n) (f_from n) (nz (f_participant n))
@@ -101,7 +101,7 @@ Theorem unsupported_message_thm : forall c ax st n,
   answers a = receipts a /\ ups a = [] /\ raises a = 0.
 Proof.
   intros c ax st n Ht Hwf Hpr Hsk Hmod.
-  destruct n as [tag x t i fr to p mro ch hp mt cv ex sk enq]. cbn in Ht, Hsk. subst tag sk. cbv zeta.
+  destruct n as [tag x t i fr to p mro ch hp mt cv ex sk mo enq]. unfold skdm_only in Hsk. cbn in Ht, Hsk. subst tag. cbv zeta.
   unfold wf_message, presentable in *. cbn in Hwf, Hpr, Hmod.
   destruct hp; cbn in Hwf; [|discriminate].
   unfold has_child in Hwf; cbn in Hwf.
@@ -115,12 +115,14 @@ Proof.
       unfold media_class, oeq in Hpr; cbn in Hpr;
       unfold media_class, oeq; cbn;
       destruct (media_class (Some m)) eqn:Hmc; unfold media_class, oeq in Hmc; cbn in Hmc;
-      rewrite ?Hmc in *; try discriminate; cbn; repeat split; reflexivity.
+      rewrite ?Hmc in *; try discriminate; cbn; unfold skdm_only; cbn; rewrite ?Hsk; cbn;
+      rewrite ?Hmc; cbn; repeat split; reflexivity.
   - (* not media *)
     destruct (oeq t "media") eqn:Hty; cbn in Hwf; [discriminate|].
     apply Bool.orb_false_iff in Hpr. destruct Hpr as [-> ->].
     flags_cases c; destruct ax; cbn; unf; unfold has_child; cbn;
-      rewrite ?Henc; cbn; unfold oeq in Hty; rewrite ?Hty; cbn; repeat split; reflexivity.
+      rewrite ?Henc; cbn; unfold oeq in Hty; rewrite ?Hty; cbn; unfold skdm_only; cbn; rewrite ?Hsk; cbn;
+      repeat split; reflexivity.
 Qed.
 
 (* media module left out: media messages belong to it and produce nothing at all (C06 off-is-silent) *)
@@ -130,7 +132,7 @@ Theorem media_off_silent_thm : forall c ax st n,
   stack_recv repaired c ax st n = [].
 Proof.
   intros c ax st n Ht Hwf Hm Hmt.
-  destruct n as [tag x t i fr to p mro ch hp mt cv ex sk enq]. cbn in Ht. subst tag.
+  destruct n as [tag x t i fr to p mro ch hp mt cv ex sk mo enq]. cbn in Ht. subst tag.
   unfold wf_message in *. cbn in Hwf, Hmt. destruct mt as [m|]; [|discriminate].
   destruct hp; cbn in Hwf; [|discriminate].
   unfold has_child in Hwf; cbn in Hwf.
@@ -140,15 +142,117 @@ Proof.
     rewrite ?Henc; cbn; reflexivity.
 Qed.
 
-(* known finding (open): key distribution together with unpresentable content is dropped silently *)
+(* repaired finding, witness kept: the messages layer used to test `not sender_key_distribution_message`, so a key
+   distribution together with unpresentable content (a retry resend of a revoke) was dropped without a receipt *)
+Definition unrepaired_text : variant := mkVariant true true true false true.
+Definition unrepaired_media : variant := mkVariant true true true true false.
 Lemma unsupported_with_skdm_refuted : exists c n,
-  f_tag n = "message" /\ wf_message n = true /\ presentable n = false /\ f_skdm n = true /\
-  answers (stack_recv repaired c false [] n) = [].
+  f_tag n = "message" /\ wf_message n = true /\ presentable n = false /\ skdm_only n = false /\
+  answers (stack_recv unrepaired_text c false [] n) = [].
 Proof.
   exists (mkFlags true true true true),
     (mkFeat "message" None (Some "text") (Some "1") (Some "a@s.whatsapp.net") None None []
-            [("proto", None)] true None false false true false).
+            [("proto", None)] true None false false true true false).
   repeat split; vm_compute; reflexivity.
+Qed.
+
+(* the pkmsg part of a group message carries nothing but the sender key (the content travels in the skmsg part,
+   which is acknowledged on its own): no entity, no receipt, nothing raised - text and media alike *)
+Theorem skdm_only_silent_thm : forall c ax st n,
+  f_tag n = "message" -> wf_message n = true -> skdm_only n = true ->
+  f_conv n = false -> f_ext n = false ->
+  stack_recv repaired c ax st n = [].
+Proof.
+  intros c ax st n Ht Hwf Hsk Hcv Hex.
+  destruct n as [tag x t i fr to p mro ch hp mt cv ex sk mo enq]. unfold skdm_only in Hsk.
+  cbn in Ht, Hsk, Hcv, Hex. subst tag cv ex.
+  unfold wf_message in *. cbn in Hwf.
+  destruct hp; cbn in Hwf; [|discriminate].
+  unfold has_child in Hwf; cbn in Hwf.
+  destruct (existsb (fun c => (fst c =? "enc")%string) ch) eqn:Henc; cbn in Hwf; [discriminate|].
+  unfold stack_recv, ctl_recv, pair_recv, axsend_recv, axrecv_recv, par_recv, layer_recv, registry_recv.
+  destruct mt as [m|].
+  - destruct (oeq t "media") eqn:Hty; cbn in Hwf; [|discriminate].
+    flags_cases c; destruct ax; cbn; unf; unfold has_child; cbn;
+      rewrite ?Henc; cbn; unfold oeq in Hty; rewrite ?Hty; cbn; unfold skdm_only; cbn; rewrite ?Hsk; cbn;
+      reflexivity.
+  - destruct (oeq t "media") eqn:Hty; cbn in Hwf; [discriminate|].
+    flags_cases c; destruct ax; cbn; unf; unfold has_child; cbn;
+      rewrite ?Henc; cbn; unfold oeq in Hty; rewrite ?Hty; cbn; unfold skdm_only; cbn; rewrite ?Hsk; cbn;
+      reflexivity.
+Qed.
+
+(* repaired finding (C03), witness kept: the media layer used to dispatch on the mediatype attribute alone, so the
+   pkmsg part of a first group media message surfaced as a second media entity *)
+Lemma media_skdm_only_unrepaired_refuted : exists c n,
+  f_tag n = "message" /\ wf_message n = true /\ skdm_only n = true /\
+  ups (stack_recv unrepaired_media c false [] n) = ["ImageDownloadableMediaMessageProtocolEntity"] /\
+  stack_recv repaired c false [] n = [].
+Proof.
+  exists (mkFlags true true true true),
+    (mkFeat "message" None (Some "media") (Some "1") (Some "g@g.us") None (Some "a@s.whatsapp.net") []
+            [("proto", None)] true (Some "image") false false true false false).
+  repeat split; vm_compute; reflexivity.
+Qed.
+
+(* ---------------------------------------------------------------- histories
+   The layers keep state between stanzas (iq registries; a layer could remember ids).  The acknowledgement duty is
+   per stanza, whatever was received before - the same id again, the same stanza again, another sender using the
+   same id.  run_recvs threads the registry exactly as the stack does. *)
+Fixpoint run_recvs (v : variant) (c : flags) (ax : bool) (st : registry) (ns : list feat) : list (list action) :=
+  match ns with
+  | [] => []
+  | n :: r => stack_recv v c ax st n :: run_recvs v c ax (st_after_recv c ax st n) r
+  end.
+
+Lemma run_recvs_nth : forall ns v c ax st k n, nth_error ns k = Some n ->
+  exists st', nth_error (run_recvs v c ax st ns) k = Some (stack_recv v c ax st' n).
+Proof.
+  induction ns as [|n0 ns IH]; intros v c ax st k n H.
+  - destruct k; discriminate.
+  - destruct k as [|k]; cbn in H.
+    + injection H as <-. exists st. reflexivity.
+    + destruct (IH v c ax (st_after_recv c ax st n0) k n H) as [st' H']. exists st'. exact H'.
+Qed.
+
+Theorem notification_ack_history_thm : forall ns c ax st k n,
+  nth_error ns k = Some n -> f_tag n = "notification" -> picture_rejected n = false ->
+  exists a, nth_error (run_recvs repaired c ax st ns) k = Some a /\
+            acks a = [notification_ack n] /\ answers a = [notification_ack n] /\ raises a = 0.
+Proof.
+  intros ns c ax st k n Hk Ht Hp.
+  destruct (run_recvs_nth ns repaired c ax st k n Hk) as [st' H'].
+  exists (stack_recv repaired c ax st' n). split; [exact H'|].
+  exact (notification_ack_thm c ax st' n Ht Hp).
+Qed.
+
+Theorem call_history_thm : forall ns c ax st k n,
+  nth_error ns k = Some n -> f_tag n = "call" ->
+  exists a, nth_error (run_recvs repaired c ax st ns) k = Some a /\
+    ups a = ["CallProtocolEntity"] /\ raises a = 0 /\
+    answers a = (if has_child n "offer"
+                 then [SReceipt (f_id n) (f_from n) None None (nz (child_callid n "offer"))]
+                 else [SAck (f_id n) "call" None (f_from n) None]).
+Proof.
+  intros ns c ax st k n Hk Ht.
+  destruct (run_recvs_nth ns repaired c ax st k n Hk) as [st' H'].
+  exists (stack_recv repaired c ax st' n). split; [exact H'|].
+  exact (call_thm c ax st' n Ht).
+Qed.
+
+Theorem unsupported_message_history_thm : forall ns c ax st k n,
+  nth_error ns k = Some n ->
+  f_tag n = "message" -> wf_message n = true -> presentable n = false -> skdm_only n = false ->
+  (match f_mediatype n with Some _ => fl_media c | None => true end) = true ->
+  exists a, nth_error (run_recvs repaired c ax st ns) k = Some a /\
+    receipts a = [SReceipt (f_id n) (f_from n) (nz (f_participant n))
+                           (match f_mediatype n with Some _ => Some "read" | None => None end) None] /\
+    answers a = receipts a /\ ups a = [] /\ raises a = 0.
+Proof.
+  intros ns c ax st k n Hk Ht Hwf Hpr Hsk Hmod.
+  destruct (run_recvs_nth ns repaired c ax st k n Hk) as [st' H'].
+  exists (stack_recv repaired c ax st' n). split; [exact H'|].
+  exact (unsupported_message_thm c ax st' n Ht Hwf Hpr Hsk Hmod).
 Qed.
 
 (* outside the well-formed domain (observation, not an alarm): type=media without mediatype is
@@ -159,14 +263,14 @@ Lemma media_without_mediatype_two_receipts : exists c n,
 Proof.
   exists (mkFlags true true true true),
     (mkFeat "message" None (Some "media") (Some "1") (Some "a@s.whatsapp.net") None None []
-            [("proto", None)] true None false false false false).
+            [("proto", None)] true None false false false false false).
   repeat split; vm_compute; reflexivity.
 Qed.
 
 (* non-vacuity: the hypotheses of the four theorems are met by ordinary stanzas *)
 Example notification_example :
   let n := mkFeat "notification" None (Some "web") (Some "77") (Some "s.whatsapp.net") None
-                  (Some "49@s.whatsapp.net") [] [] false None false false false false in
+                  (Some "49@s.whatsapp.net") [] [] false None false false false false false in
   f_tag n = "notification" /\ picture_rejected n = false /\
   acks (stack_recv repaired (mkFlags true false true false) true [] n)
   = [SAck (Some "77") "notification" (Some "web") (Some "s.whatsapp.net") (Some "49@s.whatsapp.net")].
